@@ -1691,4 +1691,107 @@ theorem consume_eq_untilError (parse : List Nat → Except ε α) (ig : Bool) (l
         | true => simp [hb, hp, ih, outcomeOf]
         | false => simp [hb, hp, outcomeOf, untilError]
 
+/-! ### Part J: `cur_byte_pos` in forward mode -/
+
+theorem consumePos_length (parse : List Nat → Except ε α) (ig : Bool) (p : Nat) (ls : List (List Nat)) :
+    (consumePos parse ig p ls).length = (consume parse ig ls).1.length := by
+  induction ls generalizing p with
+  | nil => simp [consumePos, consume]
+  | cons l ls ih =>
+    rw [consumePos, consume]
+    by_cases hb : lineNorm l = []
+    · simp [hb, ih]
+    · cases hp : parse (lineNorm l) with
+      | ok v => simp [hb, ih]
+      | error e => cases ig <;> simp [hb, ih]
+
+/-- first line of a binary file and the rest -/
+theorem fileLinesB_decomp (s : List Nat) (hs : s ≠ []) :
+    ∃ l1 s', fileLinesB s = l1 :: fileLinesB s' ∧ s = l1 ++ s' ∧ l1 ≠ [] ∧ (endsNL l1 = true ∨ s' = []) := by
+  induction s with
+  | nil => exact absurd rfl hs
+  | cons c cs ih =>
+    by_cases hc : c = 10
+    · subst hc
+      exact ⟨[10], cs, by simp [fileLinesB], rfl, by simp, Or.inl (by decide)⟩
+    · by_cases hcs : cs = []
+      · subst hcs
+        exact ⟨[c], [], by simp [fileLinesB, hc, consHead], rfl, by simp, Or.inr rfl⟩
+      · obtain ⟨l1, s', h1, h2, h3, h4⟩ := ih hcs
+        refine ⟨c :: l1, s', ?_, by rw [h2]; rfl, by simp, ?_⟩
+        · rw [fileLinesB]; simp [hc, h1, consHead]
+        · rcases h4 with h4 | h4
+          · left
+            unfold endsNL at h4 ⊢
+            rw [show c :: l1 = [c] ++ l1 from rfl, lastIs_append _ _ _ h3]; exact h4
+          · exact Or.inr h4
+
+theorem fileLinesB_nil : fileLinesB [] = [] := by simp [fileLinesB]
+
+/-- positions reported for the lines of `s`, which starts at offset `pre.length` of `pre ++ s`:
+    each lies after the start, within the file, at the end of a line -/
+theorem consumePos_spec (parse : List Nat → Except ε α) (ig : Bool) (n : Nat) :
+    ∀ (pre s : List Nat), s.length ≤ n →
+      List.Pairwise (· < ·) (consumePos parse ig pre.length (fileLinesB s)) ∧
+      ∀ q ∈ consumePos parse ig pre.length (fileLinesB s),
+        pre.length < q ∧ q ≤ (pre ++ s).length ∧
+        (q = (pre ++ s).length ∨ endsNL ((pre ++ s).take q) = true) := by
+  induction n with
+  | zero =>
+    intro pre s hs
+    have : s = [] := List.length_eq_zero_iff.mp (by omega)
+    subst this
+    simp [fileLinesB_nil, consumePos]
+  | succ n ih =>
+    intro pre s hs
+    by_cases hs0 : s = []
+    · subst hs0; simp [fileLinesB_nil, consumePos]
+    · obtain ⟨l1, s', h1, h2, h3, h4⟩ := fileLinesB_decomp s hs0
+      have hl1 : 0 < l1.length := List.length_pos_iff.mpr h3
+      have hlen : s'.length ≤ n := by
+        have := congrArg List.length h2; simp at this; omega
+      obtain ⟨i1, i2⟩ := ih (pre ++ l1) s' hlen
+      have hpl : (pre ++ l1).length = pre.length + l1.length := by simp
+      rw [hpl] at i1 i2
+      have hcat : pre ++ l1 ++ s' = pre ++ s := by rw [h2]; simp
+      rw [hcat] at i2
+      -- the position right after the first line
+      have hq0 : pre.length < pre.length + l1.length ∧ pre.length + l1.length ≤ (pre ++ s).length ∧
+          (pre.length + l1.length = (pre ++ s).length ∨
+            endsNL ((pre ++ s).take (pre.length + l1.length)) = true) := by
+        refine ⟨by omega, by rw [h2]; simp, ?_⟩
+        rcases h4 with h4 | h4
+        · right
+          have : (pre ++ s).take (pre.length + l1.length) = pre ++ l1 := by
+            rw [← hcat, ← hpl, List.take_left']
+            rfl
+          rw [this]
+          unfold endsNL at h4 ⊢
+          rw [lastIs_append _ _ _ h3]; exact h4
+        · left; rw [h2, h4]; simp
+      have tail_ok : ∀ q ∈ consumePos parse ig (pre.length + l1.length) (fileLinesB s'),
+          pre.length < q ∧ q ≤ (pre ++ s).length ∧
+          (q = (pre ++ s).length ∨ endsNL ((pre ++ s).take q) = true) := by
+        intro q hq
+        obtain ⟨a, b, c⟩ := i2 q hq
+        exact ⟨by omega, b, c⟩
+      rw [h1, consumePos]
+      by_cases hb : lineNorm l1 = []
+      · simp only [hb, if_true]
+        exact ⟨i1, tail_ok⟩
+      · simp only [hb, if_false]
+        cases hp : parse (lineNorm l1) with
+        | ok v =>
+          simp only []
+          refine ⟨List.pairwise_cons.mpr ⟨fun q hq => (i2 q hq).1, i1⟩, ?_⟩
+          intro q hq
+          rcases List.mem_cons.mp hq with rfl | hq
+          · exact hq0
+          · exact tail_ok q hq
+        | error e =>
+          simp only []
+          cases ig with
+          | true => simp only [if_true]; exact ⟨i1, tail_ok⟩
+          | false => simp
+
 end C19
